@@ -1,0 +1,34 @@
+//go:build verif
+
+// Machine-checked contracts for package metrics (comment-only; read by /verif's govc).
+
+package metrics
+
+// The critical section of the sliding-window cleaner (one tick), C19: exactly a prefix of k samples is
+// dropped, every dropped sample had expired by the end of the section, the first kept one had not expired
+// when the section began, and the kept samples are the old ones, unchanged and in order.
+//@ func slidingWindow.cleaner@tick
+//@ region for#0/select#0/case#0
+//@ ghostret k int = newstartidx
+//@ modifies sw
+//@ ensures[len] 0 <= k && k <= old(len(sw.samples)) && len(sw.samples) == old(len(sw.samples)) - k
+//@ ensures[kept] forall(j, 0, len(sw.samples), sw.samples[j] == old(sw.samples[j+k]))
+//@ ensures[expired] forall(j, 0, k, inst(old(sw.samples[j].expires)) < clock())
+//@ ensures[live] k < old(len(sw.samples)) ==> inst(old(sw.samples[k].expires)) >= old(clock())
+//@ loop 0 invariant[idx] 0 <= idx && idx <= len(sw.samples) && newstartidx == idx
+//@ loop 0 invariant[same] sw.samples == old(sw.samples) && forall(j, 0, len(sw.samples), sw.samples[j] == old(sw.samples[j]))
+//@ loop 0 invariant[expired] forall(j, 0, newstartidx, inst(old(sw.samples[j].expires)) < clock())
+//@ loop 0 invariant[clock] clock() >= old(clock())
+
+//@ func slidingWindow.Add
+//@ modifies sw
+//@ modifies sw.samples[len(sw.samples):cap(sw.samples)]
+//@ ensures[len] len(sw.samples) == old(len(sw.samples)) + 1
+//@ ensures[val] sw.samples[len(sw.samples)-1].Value == v
+//@ ensures[exp] inst(sw.samples[len(sw.samples)-1].expires) >= old(clock()) + sw.sampleLifetime
+//@ ensures[keeps] forall(j, 0, old(len(sw.samples)), sw.samples[j] == old(sw.samples[j]))
+
+//@ func slidingWindow.Samples
+//@ ensures[len] len(result) == len(sw.samples) && fresh(result)
+//@ ensures[vals] forall(j, 0, len(result), result[j] == sw.samples[j].Value)
+//@ loop 0 invariant 0 <= idx && idx <= len(sw.samples) && len(samples) == len(sw.samples) && fresh(samples) && forall(j, 0, idx, samples[j] == sw.samples[j].Value)
